@@ -471,6 +471,17 @@ def alignment_induction(prog: Program, chk: Check):
 
     T = chk.rule("C11-T", "the ctypes mirror used by the final size assertion maps every native name to a fixed-width ctypes type", 20,
                  "a platform-sized mirror type makes the assertion reject definitions that are perfectly aligned ('accepted exactly when it needs none')")
+    # ... and it has an entry for every native type the parser accepts, under the name the lookup uses (NativeType.name):
+    # a supported type without one is accepted by the grammar and then dies with KeyError inside the size assertion
+    mirror_keys = {key for key, _t, _l in ctypes_table_entries(prog)}
+    sup = prog.module(PAR).assigns.get("supported_types")
+    if isinstance(sup, ast.Dict):
+        for k_, v_ in zip(sup.keys, sup.values):
+            if isinstance(k_, ast.Constant) and isinstance(v_, ast.Call):
+                nm_ = next((x.value.value for x in v_.keywords if x.arg == "name" and isinstance(x.value, ast.Constant)), None)
+                T.decide(nm_ in mirror_keys, f"{PAR}|mirror-entry:{k_.value}", f"{prog.module(PAR).rel}:{k_.lineno}", f"`{k_.value}` is mirrored under `{nm_}`",
+                         f"native type `{k_.value}` (NativeType.name `{nm_}`) has no entry in the ctypes mirror: a definition with such a field is accepted by the parser's "
+                         f"type table and then raises KeyError in get_ctype_cls (findings/c11_signed_char.py)")
     for key, tname, loc in ctypes_table_entries(prog):
         T.decide(tname not in PLATFORM_SIZED_CTYPES, f"{PAR}|ctype:{key}", loc, f"{key} -> {tname}",
                  f"native type `{key}` is mirrored by ctypes.{tname} (8 bytes on 64-bit Linux / macOS, RTMA's is 4): a definition with such a field fails the size assertion although it needs no padding")
